@@ -8,7 +8,7 @@ checksum error; with verification off the same damaged files are handled without
 Files: written by carquet itself (tools/filecase generators, every codec, all seven types, one or several pages
 per chunk; the triggers of the known writer/reader defects are avoided so that the undamaged file reads back).
 Page bodies are located with the independent reader tools/pq.py.  Damage:
-  quick     every single bit of every page body of 3 small files
+  quick     every single bit of every page body of 6 small files (one per codec)
   thorough  ~40 files: every bit; every other byte value at sampled positions; one burst of 2..32 bits starting
             at every bit (first and last bit of the burst flipped, interior random)
 each x {buffer, stdio, mmap}, read through the column reader (all of them) and the batch reader (a sample).
@@ -30,7 +30,7 @@ BIG = 1 << 20
 
 def _gen_files(tier, rng):
     """Small valid files with varied codec / types / page layout -> [(case, bytes, ParsedFile)]."""
-    want = 3 if tier == "quick" else 40
+    want = 6 if tier == "quick" else 40               # quick: one small file per codec
     budget = 520 if tier == "quick" else 1400          # bytes of page bodies per file
     avoid = set(fc.AVOIDABLE)
     out, tries = [], 0
@@ -177,7 +177,7 @@ def check_files(rep, tier, rng):
         rep.tie_broken("harness h_file does not build against the current tree: " + str(e)[:400])
         return
     files = _gen_files(tier, rng)
-    if len(files) < (3 if tier == "quick" else 20):
+    if len(files) < (4 if tier == "quick" else 20):
         rep.tie_broken(f"file-level C14: only {len(files)} usable carquet-written files could be produced")
     stats = {"files": len(files), "page_bodies": 0, "body_bytes": 0, "damaged_reads": 0, "by_kind": {}, "by_codec": {}}
     off_faults = []
